@@ -770,7 +770,16 @@ func c19DecodeTargetFresh(p *Prog, r *Report, rule string) {
 				return true
 			}
 			fresh := false
-			if u, ok := ast.Unparen(c.Args[1]).(*ast.UnaryExpr); ok && u.Op == token.AND {
+			target := ast.Unparen(c.Args[1])
+			// the target may be kept in a local of the iteration first: f := &files[i]; unmarshalFile(rec, f)
+			if id, isId := target.(*ast.Ident); isId {
+				if o := objOf(info, id); o != nil {
+					if d := singleDef(info, fi.Decl.Body, o); d != nil {
+						target = ast.Unparen(d)
+					}
+				}
+			}
+			if u, ok := target.(*ast.UnaryExpr); ok && u.Op == token.AND {
 				switch t := ast.Unparen(u.X).(type) {
 				case *ast.IndexExpr:
 					// element of a slice made in this function and indexed by the loop variable: each element is decoded once
